@@ -1027,8 +1027,23 @@ def run_history(case, fl):
                     o.label("op_skipped_no_container")
                     continue
                 key = POOLS[level][op[4] % len(POOLS[level])]
-                cont[key] = cont[src]
-                kids[key] = kids[src]  # same object in the model, too
+                child_model = kids[src]
+                serial_ok = fl.name == "bcif" and op[4] % 3 == 0 and not (
+                    _has_empty_category({"b": child_model}) if level == 0 else len(child_model.cols) == 0
+                )
+                if serial_ok:
+                    # the *serialised form* of one child stored under two keys (accepted by
+                    # __setitem__): both keys own their entry, before and after serialisation
+                    o.label("op:alias_serialized")
+                    key2 = POOLS[level][(op[4] + 1) % len(POOLS[level])]
+                    ser = cont[src].serialize()
+                    cont[key] = ser
+                    cont[key2] = ser
+                    kids[key] = copy.deepcopy(child_model)
+                    kids[key2] = copy.deepcopy(child_model)
+                else:
+                    cont[key] = cont[src]
+                    kids[key] = kids[src]  # same object in the model, too
                 if lazy:
                     mutated_after_lazy += 1
             elif name == "set_wrong_type":
